@@ -149,6 +149,9 @@ class Gen(object):
                 return {"k": "name", "v": self.ch(INJECT), "t": 1}
             return {"k": "name", "v": self.ch(NAMES), "t": 1 if self.p(0.9) else 2}
         if k == "appinfo":
+            if self.p(0.08):
+                # empty text strings are legal TTLV: the decoder accepts them whatever the constructors think
+                return {"k": "appinfo", "ns": self.ch(["ssl", ""]), "d": self.ch(["", "www", ""])}
             return {"k": "appinfo", "ns": self.ch(["ssl", "ns2"]), "d": self.ch(["www", "d2"])}
         if k == "date":
             if self.p(0.12):
